@@ -9,6 +9,7 @@ import concurrent.futures as cf
 import json
 import os
 import re
+import time
 
 import vlib
 
@@ -45,15 +46,18 @@ def kat_vectors():
     for nm in NAMES:
         tag = nm.replace("SLH-DSA-", "").replace("-", "")
         if "privKey%sHex" % tag in c:
+            # Two of these (copied from Tink C++) are pure-mode signatures with an empty context and are verified by the
+            # repository's tests; the other ten ("generated using the SLH-DSA python library") are never verified there: they
+            # are signatures of the INTERNAL interface (slh_sign_internal over the bare message, no M' framing).
             b.append(dict(ps=nm, sk=c["privKey%sHex" % tag], pk=c["pubKey%sHex" % tag], msg=c["msg%sHex" % tag], ctx="",
-                          sig=c["sig%sHex" % tag], det=False, src="key_pairs_test.go"))
+                          sig=c["sig%sHex" % tag], det=False, src="key_pairs_test.go", raw=tag not in ("SHA2128s", "SHAKE256f")))
     if len(a) != 12 or len(b) != 12:
         raise vlib.Infra("expected 12 + 12 known-answer vectors in the repository's tests, found %d + %d" % (len(a), len(b)))
     return a + b
 
 
 def _ev_verify(v, ok=True, mut="kat", sig=None, msg=None):
-    return dict(ev="verify", ps=v["ps"], route="kat", pk=v["pk"], msg=v["msg"] if msg is None else msg, ctx=v["ctx"],
+    return dict(ev="verify", ps=v["ps"], route="internal-raw" if v.get("raw") else "kat", pk=v["pk"], msg=v["msg"] if msg is None else msg, ctx=v["ctx"],
                 sig=v["sig"] if sig is None else sig, ok=ok, panic=False, mut=mut, variant="NO_PREFIX", id="00000000", src=v["src"])
 
 
@@ -113,6 +117,10 @@ def cost(e):
         c = verify if len(e["sig"]) // 2 in (((1 + k * (1 + a) + h + d * ln) * n), ((1 + k * (1 + a) + h + d * ln) * n) + 5) else 5
     elif ev == "keygen":
         c = (2 ** hp) * wots if e["full"] else 5
+    elif ev == "sign_digest":
+        c = 5 if (e["err"] or e["panic"]) else ((fors + d * (xs + ln * 8)) if e.get("full") else verify)
+    elif ev == "verify_digest":
+        c = verify
     elif ev == "sign_internal":
         c = (fors + d * (xs + ln * 8)) if e.get("full") else verify
     elif ev == "sign":
@@ -126,6 +134,8 @@ def cost(e):
             c = verify
     elif ev == "split":
         c = 3 * (k + d)
+    elif ev == "rootcmp":
+        c = verify // 4
     return int(c * mult) + 20
 
 
@@ -151,8 +161,13 @@ def validate(ctx, events, name, shards=16, timeout=2400):
         files.append(p)
     mism = []
 
+    walls = []
+
     def work(p):
-        return ctx.validate_events(TRACE, p, shards=1, timeout=timeout, heap="4g", stage="T:%s/%s" % (name, os.path.basename(p)))
+        t = time.time()
+        r = ctx.validate_events(TRACE, p, shards=1, timeout=timeout, heap="4g", stage="T:%s/%s" % (name, os.path.basename(p)))
+        walls.append(round(time.time() - t, 1))
+        return r
 
     with cf.ThreadPoolExecutor(max_workers=len(files)) as ex:
         for m, _ in ex.map(work, files):
@@ -161,7 +176,7 @@ def validate(ctx, events, name, shards=16, timeout=2400):
     for k in [k for k in ctx.cov["stages"] if k.startswith("T:%s/" % name)]:
         del ctx.cov["stages"][k]
     ctx.stage("T:" + name, events=len(events), shards=len(files), mismatches=len(mism), est_hash_calls=sum(cost(e) for e in events),
-              est_hash_calls_worst_shard=worst)
+              est_hash_calls_worst_shard=worst, shard_wall_s=sorted(walls))
     for p in files:
         os.remove(p)
     return mism
@@ -175,7 +190,7 @@ def sig_class(e):
 def report(ctx, mism):
     for m in mism:
         e = m["event"]
-        if e.get("route") == "kat":
+        if e.get("src"):     # a known-answer event: the data judges the reference, not the code
             raise vlib.Infra("the reference disagrees with a known answer of the repository's tests (%s %s %s): %s"
                              % (e["ev"], e["ps"], e.get("src"), m["bad"]))
         sig = "%s/%s/%s/%s %s" % (e["ev"], e.get("route", "hook"), e.get("ps", "-"), sig_class(e) or e.get("mode", ""), m["bad"][0])
@@ -186,7 +201,7 @@ def report(ctx, mism):
 def corrupt(ev, rng):
     ev = dict(ev)
     k = ev["ev"]
-    if k == "verify":
+    if k in ("verify", "verify_digest"):
         ev["ok"] = not ev["ok"]
         ev["_corrupted"] = "ok"
     elif k == "sign" and not ev["err"] and ev["sig"]:
@@ -204,6 +219,9 @@ def corrupt(ev, rng):
         f = rng.choice(["full", "comp"])
         ev[f] = _flip_hex(ev[f], rng.randrange(len(ev[f])))
         ev["_corrupted"] = f
+    elif k == "rootcmp":
+        ev["ok"] = not ev["ok"]
+        ev["_corrupted"] = "ok"
     elif k == "split":
         ev["digest"] = _flip_hex(ev["digest"], rng.randrange(2 * 8))   # inside md: a FORS index changes
         ev["_corrupted"] = "digest"
@@ -282,9 +300,18 @@ def run(ctx):
     gate = gate_events(level)
     kats = kat_vectors()
 
+    only = os.environ.get("VERIF_C16_ONLY")     # mutation trials only: restrict the parameter sets, skip (M) and (R)
+    if only:
+        ctx.log("NOTE: VERIF_C16_ONLY=%s -- reduced run for a mutation trial, not evidence" % only)
+        r = ctx.run([drv, "-out", trace, "-only", only], timeout=3000)
+        events = [json.loads(x) for x in open(trace).read().splitlines() if x.strip()]
+        report(ctx, validate(ctx, gate[:0] + events, "c16", shards=16, timeout=2700))
+        return
+
     # ---- (M) toy parameters: sign-then-verify for every digest, WOTS for every message, XMSS for every leaf
     with cf.ThreadPoolExecutor(max_workers=3) as ex:
-        f_mc = ex.submit(lambda: ctx.model_check("MC_SLHToy", workers=4, heap="4g", must_cover=False, timeout=1500))
+        f_mc = ex.submit(lambda: ctx.model_check("MC_SLHToy", "MC_SLHToy_full" if ctx.thorough else None, stage="M:MC_SLHToy",
+                                                 workers=8 if ctx.thorough else 4, heap="4g", must_cover=False, timeout=2400))
         # ---- (R) specification-made signatures
         which = ["SLH-DSA-SHA2-128f", "SLH-DSA-SHAKE-128f"]
         if ctx.thorough:
